@@ -1104,10 +1104,14 @@ class Index(IndexBase):
         elif other.__class__ is np.ndarray:
             other_is_array = True
 
-        if operator.__name__ == 'matmul':
-            return matmul(values, other)
-        elif operator.__name__ == 'rmatmul':
-            return matmul(other, values)
+        if operator.__name__ == 'matmul' or operator.__name__ == 'rmatmul':
+            if operator.__name__ == 'matmul':
+                post = matmul(values, other)
+            else:
+                post = matmul(other, values)
+            if post.__class__ is np.ndarray:
+                post.flags.writeable = False
+            return post
 
         return apply_binary_operator(
                 values=values,
@@ -1134,13 +1138,16 @@ class Index(IndexBase):
             self._update_array_cache()
 
         # do not need to pass on composabel here
-        return ufunc_axis_skipna(
+        post = ufunc_axis_skipna(
                 array=self._labels,
                 skipna=skipna,
                 axis=0,
                 ufunc=ufunc,
                 ufunc_skipna=ufunc_skipna
                 )
+        if post.__class__ is np.ndarray: # cumulative functions return an array
+            post.flags.writeable = False
+        return post
 
     # _ufunc_shape_skipna defined in IndexBase
 
